@@ -97,7 +97,12 @@ def _crossfamily(clause, replay, ctx):
     if not a or not b:
         return False
     fa, fb = _FAMILY.get(a["k"]), _FAMILY.get(b["k"])
-    return fa is not None and fb is not None and fa != fb
+    if fa is None or fb is None or fa == fb:
+        return False
+    # the recorded pairs: kinds of the two types and the two answers observed
+    entry = next(e for e in load() if e["id"] == "KF-crossfamily-order")
+    key = min([a["k"], b["k"], ctx.get("oab"), ctx.get("oba")], [b["k"], a["k"], ctx.get("oba"), ctx.get("oab")])
+    return key in entry.get("combos", [])
 
 
 @matcher("pullrank")
@@ -105,7 +110,8 @@ def _pullrank(clause, replay, ctx):
     """Signature computed by the TLA+ judge (Dependent.tla KF_pull_rank): a
     dependent method that is a type-level candidate but not applicable to the
     values.  Only outcome clauses (never runs_iff_holds / bound_guard)."""
-    return ctx.get("kf") == "1" and (clause.startswith("C10:value_outcome.") or clause.startswith("C07:value_chain."))
+    return ctx.get("kf") == "1" and (clause.startswith("C10:value_outcome.") or clause.startswith("C07:value_chain.")
+                                     or clause.startswith("C06:same_across_contexts."))
 
 
 @matcher("nextothervalue")
